@@ -404,8 +404,28 @@ func checkExpandOnce(c *Ctx, rule, fkey string, fd *ast.FuncDecl, info *types.In
 			advOK = true
 		}
 	}
+	// no other write to the scan index inside the loop body (a nested loop that reuses it would skip or rescan elements)
+	otherWrites := 0
+	ast.Inspect(main.Body, func(n ast.Node) bool {
+		switch x := n.(type) {
+		case *ast.AssignStmt:
+			for _, l := range x.Lhs {
+				if id := identOf(l); id != nil && info.Uses[id] == iobj {
+					otherWrites++
+				}
+			}
+		case *ast.IncDecStmt:
+			if id := identOf(x.X); id != nil && info.Uses[id] == iobj {
+				otherWrites++
+			}
+		}
+		return true
+	})
+	if advOK && otherWrites != 1 {
+		advOK = false
+	}
 	c.Ob(rule, fkey+"/arguments", main, argsOK, "a macro with argNum arguments receives the argNum elements that follow it, in order (element i+j+1 for j < argNum)")
-	c.Ob(rule, fkey+"/consume", main, advOK, "exactly those argNum elements are consumed (i += argNum), everything after them is scanned again as ordinary code")
+	c.Ob(rule, fkey+"/consume", main, advOK, fmt.Sprintf("exactly those argNum elements are consumed (i += argNum is the only write to the scan index in the loop body: %d found), everything after them is scanned again as ordinary code", otherWrites))
 	// results appended in order
 	resOK := false
 	ast.Inspect(main.Body, func(n ast.Node) bool {
@@ -474,4 +494,86 @@ func ruleUnwrapTrivial(c *Ctx, rule string) {
 	want := "ast2.BlockStmt ast2.DeclStmt ast2.ExprStmt ast2.ParenExpr"
 	c.Ob(rule, "base.unwrapTrivialAst2/wrappers", fd, strings.Join(unwrapped, " ") == want, "only "+want+" are ever unwrapped (found "+strings.Join(unwrapped, " ")+")")
 	c.Ob(rule, "base.unwrapTrivialAst2/block", fd, blockGuard, "a block is unwrapped only when it has exactly one element")
+}
+
+// K3 — the "something was expanded" flag is an accumulator. Callers rebuild a quoted form only when the walk
+// of its body reports an expansion, so the flag returned by a walk over several children must be the OR of
+// the children's flags: inside a loop, the named boolean result of the walk functions is only ever set to
+// true (or or-ed with itself), never overwritten with the flag of the last child.
+func ruleMonotoneFlag(c *Ctx, rule string, funcs ...string) {
+	n := 0
+	for _, fk := range funcs {
+		pk := c.P.PkgOfFunc(fk)
+		fd := c.P.Func(fk)
+		if fd == nil || pk == nil || fd.Type.Results == nil {
+			c.Ob(rule, fk, nil, false, "anchor function not found")
+			continue
+		}
+		info := pk.TypesInfo
+		flags := map[types.Object]bool{}
+		for _, f := range fd.Type.Results.List {
+			for _, nm := range f.Names {
+				if o := info.Defs[nm]; o != nil {
+					if b, ok := o.Type().Underlying().(*types.Basic); ok && b.Kind() == types.Bool {
+						flags[o] = true
+					}
+				}
+			}
+		}
+		if len(flags) == 0 {
+			c.Ob(rule, fk, fd, false, "no named boolean result")
+			continue
+		}
+		seq := 0
+		var loops []ast.Node
+		var visit func(nd ast.Node) bool
+		visit = func(nd ast.Node) bool {
+			switch x := nd.(type) {
+			case *ast.ForStmt, *ast.RangeStmt:
+				loops = append(loops, x)
+				var body *ast.BlockStmt
+				if f, ok := x.(*ast.ForStmt); ok {
+					body = f.Body
+				} else {
+					body = x.(*ast.RangeStmt).Body
+				}
+				ast.Inspect(body, visit)
+				loops = loops[:len(loops)-1]
+				return false
+			case *ast.FuncLit:
+				return false
+			case *ast.AssignStmt:
+				if len(loops) == 0 {
+					return true
+				}
+				for i, l := range x.Lhs {
+					id := identOf(l)
+					if id == nil || !flags[info.Uses[id]] {
+						continue
+					}
+					o := info.Uses[id]
+					good := false
+					if len(x.Rhs) == len(x.Lhs) {
+						r := unparen(x.Rhs[i])
+						if tv, ok := info.Types[r]; ok && tv.Value != nil && tv.Value.String() == "true" {
+							good = true
+						}
+						for _, d := range orAtoms(r) {
+							if di := identOf(d); di != nil && info.Uses[di] == o && len(orAtoms(r)) > 1 {
+								good = true
+							}
+						}
+					}
+					n++
+					seq++
+					c.Ob(rule, fmt.Sprintf("%s/%s#%d", fk, id.Name, seq), x, good, "inside a loop over children the flag "+id.Name+" is only set to true or or-ed with itself (the walk reports an expansion in any child, not in the last one)")
+				}
+			}
+			return true
+		}
+		ast.Inspect(fd.Body, visit)
+	}
+	if n < len(funcs) {
+		c.Ob(rule, strings.Join(funcs, ","), nil, false, fmt.Sprintf("%d accumulating assignments found in %d walk functions", n, len(funcs)))
+	}
 }
